@@ -94,6 +94,7 @@ fn main() {
         "C15" => drive(props::c15::C15, mode, file),
         "C16" => drive(props::c16::C16, mode, file),
         "C17" => drive(props::c17::C17, mode, file),
+        "C18" => drive(props::c18::C18, mode, file),
         "C19" => drive(props::c19::C19, mode, file),
         "C12" => drive(props::c11::C12, mode, file),
         other => {
